@@ -7,6 +7,7 @@ Requests (TAB separated).  A value field is
   s:<hex text> | b:0 | b:1 | i:<decimal> | o:<hex str() text>:<ok=<decimal>|TypeError|ValueError|OverflowError>
   bool     <val> <strict 0|1>        -> val:1 | val:0 | default | <Error>
   boolstr  <val>                     -> 1 | 0 | <Error>
+  boolT / boolstrT / intboolT <true words> <false words> <val> [<strict>]   -- with the tables in force (`-` | hex,hex,…)
   intbool  <val>                     -> 1 | 0 | <Error>
   intlike  <val>                     -> 1 | 0
   valint   <val> <min|N> <max|N>     -> ok:<n> | <Error>     bounds: <p>/<q> | +inf | -inf | nan | dnan
@@ -57,6 +58,11 @@ def parseBound (f : String) : Option Bound :=
 def optBound (f : String) : Option (Option Bound) :=
   if f = "N" then some none else (parseBound f).map some
 
+/-- a word table: `-` (empty) or hex words separated by `,`; `.` is the empty word -/
+def parseWords (f : String) : Option (List (List Char)) :=
+  if f = "-" then some []
+  else (f.splitOn ",").mapM (fun w => if w = "." then some [] else unhexChars w)
+
 def bit (b : Bool) : String := if b then "1" else "0"
 
 def handle : List String → String
@@ -68,6 +74,28 @@ def handle : List String → String
       | .ok .dflt => "default"
       | .error e => showErr e
     | _, _ => "bad-request"
+  | ["boolT", ts, fs, v, st] =>
+    match parseWords ts, parseWords fs, parseVal v, st with
+    | some ts, some fs, some v, "0" | some ts, some fs, some v, "1" =>
+      match boolFromStringT ts fs v (st == "1") with
+      | .ok (.val b) => "val:" ++ bit b
+      | .ok .dflt => "default"
+      | .error e => showErr e
+    | _, _, _, _ => "bad-request"
+  | ["boolstrT", ts, fs, v] =>
+    match parseWords ts, parseWords fs, parseVal v with
+    | some ts, some fs, some v =>
+      match isValidBoolstrT ts fs v with
+      | .ok b => bit b
+      | .error e => showErr e
+    | _, _, _ => "bad-request"
+  | ["intboolT", ts, fs, v] =>
+    match parseWords ts, parseWords fs, parseVal v with
+    | some ts, some fs, some v =>
+      match intFromBoolAsStringT ts fs v with
+      | .ok n => toString n
+      | .error e => showErr e
+    | _, _, _ => "bad-request"
   | ["boolstr", v] =>
     match parseVal v with
     | some v => match isValidBoolstr v with
